@@ -9,3 +9,71 @@ func VerifCached(p *Parser) int {
 	}
 	return len(*p.bytesCached)
 }
+
+// VerifGenTables prints the finite tables and constants of this package the Coq models depend on, as Gallina
+// definitions (the translator half of the tie between model and code: regenerated on every run, the theorems
+// of coq/http/GenAgree.v and coq/httpresp/GenAgreeResp.v are re-checked against what the code says now).
+func VerifGenTables() string {
+	tab := func(name string, f func(byte) bool) string {
+		s := "Definition " + name + " : list bool := ["
+		for i := 0; i < 256; i++ {
+			if i > 0 {
+				s += ";"
+			}
+			if f(byte(i)) {
+				s += "true"
+			} else {
+				s += "false"
+			}
+		}
+		return s + "].\n"
+	}
+	out := "(* GENERATED from /repo/nbhttp (table.go, response.go, parser.go) by VerifGenTables - do not edit *)\n"
+	out += "From Coq Require Import List NArith Bool.\nImport ListNotations.\nOpen Scope N_scope.\n"
+	out += tab("gen_token", isToken)
+	out += tab("gen_num", isNum)
+	out += tab("gen_hex", isHex)
+	out += tab("gen_alpha", isAlpha)
+	out += tab("gen_method_char", func(c byte) bool { return validMethodCharMap[c] })
+	// the methods, sorted for a deterministic file
+	var ms []string
+	for m := range validMethods {
+		ms = append(ms, m)
+	}
+	for i := range ms {
+		for j := i + 1; j < len(ms); j++ {
+			if ms[j] < ms[i] {
+				ms[i], ms[j] = ms[j], ms[i]
+			}
+		}
+	}
+	out += "Definition gen_methods : list (list N) := ["
+	for i, m := range ms {
+		if i > 0 {
+			out += "; "
+		}
+		out += "["
+		for k := 0; k < len(m); k++ {
+			if k > 0 {
+				out += ";"
+			}
+			out += itoa(int(m[k]))
+		}
+		out += "]"
+	}
+	out += "].\n"
+	out += "Definition gen_max_packet_size : N := " + itoa(maxPacketSize) + ".\n"
+	return out
+}
+
+func itoa(n int) string {
+	if n == 0 {
+		return "0"
+	}
+	s := ""
+	for n > 0 {
+		s = string(rune('0'+n%10)) + s
+		n /= 10
+	}
+	return s
+}
